@@ -552,6 +552,15 @@ def _exec(M: Machine, prog: Program, single=False, trace=False):
                     raise Panic("divmodw by zero")
                 q, r = divmod(N, D)
                 push(q >> 64); push(q % U64); push(r >> 64); push(r % U64)
+            elif m == "divw":
+                # A,B / C : the 128-bit value A*2^64 + B divided by C; fails on C == 0 or a quotient that does not fit uint64
+                c = _u(pop()); lo = _u(pop()); hi = _u(pop())
+                if c == 0:
+                    raise Panic("divw by zero")
+                q = ((hi << 64) | lo) // c
+                if q >= U64:
+                    raise Panic("divw overflow")
+                push(q)
             elif m == "expw":
                 b = _u(pop()); a = _u(pop())
                 if a == 0 and b == 0:
@@ -919,6 +928,8 @@ def _canary():
         (P + "int 4\nint 6\ncallsub g\n+\nitob\nlog\nint 1\nreturn\ng:\nproto 1 1\nframe_dig -1\nint 2\n*\nretsub\n", ("approve", [(16).to_bytes(8, "big")])),
         (P + 'byte "a"\nint 1\n+\nreturn\n', ("fail", [])),
         (P + "int 1\nint 2\nreturn\n", ("approve", [])),
+        (P + "int 1\nint 4\nint 8\ndivw\nitob\nlog\nint 1\nreturn\n", ("approve", [((2 ** 64 + 4) // 8).to_bytes(8, "big")])),
+        (P + "int 8\nint 0\nint 8\ndivw\nreturn\n", ("fail", [])),
         (P + "+\nint 1\nreturn\n", ("fail", [])),
     ]
     for teal, (verdict, logs) in cases:
